@@ -54,15 +54,20 @@ CLAIMED = {
         "the cells along a segment sum to one (1-D tiling lemma, also for empty overlaps); rotation "
         "factors form a unit vector; the square loop of a magnetic dipole is closed, planar, "
         "perpendicular to the dipole, of the stated area and right-handed; dipole electrode span; "
-        "field scaling linear. PARTIAL: the composition of the tiling lemma over the coded triple "
-        "cell loop (dipole_moment_stmt) is not proved - it is covered by the correspondence and by "
-        "the moment/support monitor on the real code. Tie to code: _point_vector and "
+        "field scaling linear; and (Props/C10Dipole.lean) the full finite-dipole theorem "
+        "dipole_moment: for every grid with strictly increasing nodes and every segment inside it "
+        "that does not lie in an upper boundary face, each component of the coded dipole vector "
+        "sums to p1 - p0 - via: edge sums = sum over contributing cells of weights x length, the "
+        "code's guard accepts exactly the cells with a non-empty parametric intersection, the cell "
+        "box of each direction covers the segment, three-dimensional tiling identity. "
+        "Tie to code: _point_vector and "
         "_dipole_vector (dipoles, wires with 2..8 electrodes, positions on nodes/edges/faces and in "
         "outer half cells) vs the exact model (T-float, dyadic coordinates); get_source_field for "
         "every source class/input form/f>0,f<0,None with repeated calls; conversions.",
    design='§4 C10',
    note=TB % 'c10' + "Modelled not verified: sqrt and trigonometric functions (routed / compared "
-        "in floats). Known finding: segment inside an upper boundary face gives a NaN field.",
+        "in floats). Known finding: segment inside an upper boundary face gives a NaN field "
+        "(hypothesis DirOK.notTop of dipole_moment).",
    technique='Lean 4 sum/partition lemmas + ring identities; float correspondence with exact model; moment/support oracle'),
  'C11': dict(
    text="Proof (Lean 4) about the collection model PMap: for EVERY completion order of the tasks "
